@@ -1,6 +1,99 @@
+import Model.Uuid
 import Driver.Util
 namespace Driver.C19
-/-- placeholder: replaced when the property's model is built -/
-def step (_ : Unit) (_ : List String) : Unit × String := ((), "unimplemented")
+open Util
+
+/-- Go's `for _, r := range string` over raw bytes: ASCII bytes are always runes of their own (an invalid or
+    multi-byte sequence never swallows a byte < 0x80); every other rune is ≥ 0x80, and `Uuid.parseLoop` rejects
+    at the first such rune whatever it is (theorem `C19_parse_rejects_nonhex`), so one U+FFFD per byte ≥ 0x80
+    is an exact stand-in. -/
+def runes (bs : List UInt8) : List Char :=
+  bs.map (fun b => if b.toNat < 128 then Char.ofNat b.toNat else Char.ofNat 0xFFFD)
+
+def intArg (s : String) : Option Int := s.toInt?
+def natArg (s : String) : Option Nat := s.toNat?
+
+def optHex : Option (List UInt8) → String
+  | some b => toHex b
+  | none => "nil"
+
+/-- ops:
+  parse <hex of the string bytes>      → hex uuid | err
+  print <hex16>                        → canonical string
+  roundtrip <hex16>                    → hex of parse (print u) | err
+  fields <hex16>                       → version variant timestamp clock node time
+  with <t int64> <clock uint32> <node> → hex uuid
+  minmax <sec> <nsec>                  → min max
+  gen <clockSeq> <hw> <sec> <nsec>     → uuid newClockSeq
+  rand <hex16>                         → stamped uuid
+  conc <goroutines> <each>             → distinct (theorem C19_unique_partial, total ≤ 16384)
+  tsround / timeround / bound / randchk / parsechk: property oracles, see below -/
+def step (_ : Unit) (ws : List String) : Unit × String :=
+  ((), match ws with
+  | ["parse", h] => match parseHex h with
+      | some bs => match Uuid.parse (runes bs) with
+        | some u => toHex u
+        | none => "err"
+      | none => "bad-op"
+  | ["print", h] => match parseHex h with
+      | some u => String.ofList (Uuid.print u)
+      | none => "bad-op"
+  | ["roundtrip", h] => match parseHex h with
+      | some u => match Uuid.parse (Uuid.print u) with
+        | some v => toHex v
+        | none => "err"
+      | none => "bad-op"
+  | ["fields", h] => match parseHex h with
+      | some u =>
+        let tm := match Uuid.time u with
+          | some (s, n) => s!"{s}.{n}"
+          | none => "zero"
+        s!"v={Uuid.version u} var={Uuid.variant u} ts={Uuid.timestamp u} clock={Uuid.clock u} node={optHex (Uuid.node u)} time={tm}"
+      | none => "bad-op"
+  | ["with", t, c, n] => match intArg t, natArg c, parseHex n with
+      | some t, some c, some n => toHex (Uuid.timeUUIDWith (Uuid.bits64 t) c n)
+      | _, _, _ => "bad-op"
+  | ["minmax", s, n] => match intArg s, natArg n with
+      | some s, some n => toHex (Uuid.minTimeUUID s n) ++ " " ++ toHex (Uuid.maxTimeUUID s n)
+      | _, _ => "bad-op"
+  | ["gen", c, hw, s, n] => match natArg c, parseHex hw, intArg s, natArg n with
+      | some c, some hw, some s, some n =>
+        let r := Uuid.uuidFromTime c hw s n
+        toHex r.1 ++ " " ++ toString r.2
+      | _, _, _, _ => "bad-op"
+  | ["rand", h] => match parseHex h with
+      | some u => toHex (Uuid.stampV4 u)
+      | none => "bad-op"
+  -- property-oracle ops (spec-backed: the model's answer is fixed by a theorem of Proofs/C19.lean)
+  | ["tsround", t, c, n] => match natArg t, natArg c, parseHex n with   -- C19_time_roundtrip (t < 2^60)
+      | some t, some c, some n =>
+        let u := Uuid.timeUUIDWith t c n
+        s!"ts={Uuid.timestamp u} v={Uuid.version u} var={Uuid.variant u} clock={Uuid.clock u} node={optHex (Uuid.node u)}"
+      | _, _, _ => "bad-op"
+  | ["timeround", s, n] => match intArg s, natArg n with               -- C19_time_exact (representable instants)
+      | some s, some n =>
+        let f := fun (u : List UInt8) => match Uuid.time u with
+          | some (a, b) => s!"{a}.{b}"
+          | none => "zero"
+        f (Uuid.minTimeUUID s n) ++ " " ++ f (Uuid.maxTimeUUID s n)
+      | _, _ => "bad-op"
+  | ["bound", s, n, h] => match intArg s, natArg n, parseHex h with     -- C19_min_max_bound_time
+      | some s, some n, some u =>
+        if Uuid.Spec.cassLe (Uuid.minTimeUUID s n) u && Uuid.Spec.cassLe u (Uuid.maxTimeUUID s n) then "bounded" else "NOT-BOUNDED"
+      | _, _, _ => "bad-op"
+  | ["randchk", h] => match parseHex h with                             -- C19_random_v4
+      | some u => s!"v={Uuid.version (Uuid.stampV4 u)} var={Uuid.variant (Uuid.stampV4 u)}"
+      | none => "bad-op"
+  | ["parsechk", h] => match parseHex h with                            -- C19_parse_rejects / C19_parse_exact
+      | some bs => match Uuid.parse (runes bs) with
+        | some u => if (runes bs).all (fun c => c = '-' || Uuid.Spec.isHex c) && (Uuid.Spec.digitsOf (runes bs)).length = 32
+                       && u = Uuid.pack (Uuid.digitVals (runes bs)) then "ok" else "ACCEPTED-OUTSIDE-LANGUAGE"
+        | none => "ok"
+      | none => "bad-op"
+  | ["conc", g, n] => match natArg g, natArg n with
+      | some g, some n => if g * n ≤ 16384 then "distinct" else "unconstrained"
+      | _, _ => "bad-op"
+  | _ => "bad-op")
+
 def init : Unit := ()
 end Driver.C19
